@@ -394,6 +394,12 @@ func (p *Program) RunHarness(name string, cfg HarnessConfig, kind SolverKind, ve
 				if cfg.StopAtFirst && len(i.rep.violations) > 0 {
 					stop = true
 				}
+				// a check needs one confirmed counterexample, not all of them: once this worker has a
+				// few (the first may fail its native replay) the exploration ends - a change that breaks
+				// the code under test can otherwise multiply paths without bound
+				if cfg.StopAfterViolations > 0 && len(i.rep.violations) >= cfg.StopAfterViolations {
+					stop = true
+				}
 				if i.solver.dead {
 					// nothing decided after this point can be trusted: end the exploration as inconclusive
 					rep.Inconclusive = appendUnique(rep.Inconclusive, "solver process lost: "+i.solver.lastErr)
